@@ -95,6 +95,12 @@ fn step(line: &str, st: &mut Streams) -> Option<i32> {
             st.err = None;
             libc::close(2);
         },
+        "kill" => unsafe {
+            // die by a signal instead of exiting (no exit code)
+            libc::signal(libc::SIGPIPE, libc::SIG_DFL);
+            libc::kill(libc::getpid(), arg.parse().unwrap_or(9));
+            std::thread::sleep(std::time::Duration::from_secs(5));
+        },
         "exit" => return Some(arg.parse().unwrap_or(0)),
         _ => {}
     }
